@@ -674,6 +674,18 @@ func sortedAfter(info *types.Info, o types.Object, after []ast.Stmt) bool {
 			if id, ok := call.Args[0].(*ast.Ident); ok && info.Uses[id] == o {
 				return true
 			}
+		case "sort.Sort", "sort.Stable":
+			// sort.Sort(sort.StringSlice(s)): the standard library's own total orders, which sort.Strings is short for
+			if conv, ok := call.Args[0].(*ast.CallExpr); ok && len(conv.Args) == 1 {
+				if tv, ok := info.Types[conv.Fun]; ok && tv.IsType() {
+					switch tv.Type.String() {
+					case "sort.StringSlice", "sort.IntSlice", "sort.Float64Slice":
+						if id, ok := conv.Args[0].(*ast.Ident); ok && info.Uses[id] == o {
+							return true
+						}
+					}
+				}
+			}
 		}
 		return false
 	}
@@ -761,6 +773,11 @@ func ruleCloneComplete(c *eng.Ctx) {
 	c.Rule(R, "clone functions assign every field of the struct from the same field of the source; fields that contain references (slices, maps, nested structs with slices) are rebuilt, not aliased, unless allow-listed by name with a reason", 12, 0)
 	for _, sp := range cloneSpecs {
 		fn := c.P.FuncExact(sp.fn)
+		if fn == nil {
+			if r := c.P.RenamedTo(sp.fn); r != "" {
+				fn = c.P.FuncExact(r)
+			}
+		}
 		nt := c.P.NamedType(sp.pkg, sp.typ)
 		if fn == nil && nt != nil && sp.optional {
 			// the nested clone was inlined into its only caller: the caller's field is judged there
